@@ -14,6 +14,9 @@ func TypeName(typeDef Type) string {
 	if typeDef.IsArray() {
 		return "ArrayOf" + TypeName(typeDef.AsArray().ValueType)
 	}
+	if typeDef.IsMap() {
+		return "MapOf" + TypeName(typeDef.AsMap().ValueType)
+	}
 
 	return tools.UpperCamelCase(string(typeDef.Kind))
 }
